@@ -174,6 +174,14 @@ def rule_r4(prog, res) -> None:
                         why = f"the main diagonal (k=0) is missing from the diagonals-only covariance (diagonals taken: {sorted(set(ks))[:4]})"
                     elif kv == "diag" and not (any("shape" in k_ and not k_.startswith("-") for k_ in ks) and any("shape" in k_ and k_.startswith("-") for k_ in ks)):
                         why = f"the diagonals that pair the same observable of different sample sets (offsets ± the width of a set, above and below the main diagonal) are not both taken (diagonals taken: {sorted(set(ks))[:4]})"
+                    # a diagonal is taken out and put back at the SAME offset: diag(diag(M, k=a), k=b) with a = b
+                    for d_ in diags:
+                        inner = d_.args[0] if d_.args else None
+                        if isinstance(inner, ast.Call) and (dotted(inner.func) or "").split(".")[-1] == "diag":
+                            ka = unparse(kwarg(inner, "k") or (inner.args[1] if len(inner.args) > 1 else ast.Constant(value=0)))
+                            kb = unparse(kwarg(d_, "k") or (d_.args[1] if len(d_.args) > 1 else ast.Constant(value=0)))
+                            if ka != kb and not why:
+                                why = f"a diagonal is taken at offset {ka[:30]} and put back at offset {kb[:30]}"
                     if why:
                         bad.setdefault("kind", (p, f"kind='{kv}': {why}"))
                 if not main:
@@ -184,6 +192,32 @@ def rule_r4(prog, res) -> None:
             res.violation("C03.R4", cv, (bad["kind"][0].node if bad["kind"][0] is not None else None) or cv.node, f"cov_from_samples: {bad['kind'][1]} — the matrix handed out is not the kind of covariance that was asked for (correlations dropped or invented), silently", key_extra="cov-kind-dispatch")
         else:
             res.ok("C03.R4", res.site(cv, "kind"), "full / var / diag return the matrix, its main diagonal, the main plus the cross-sample diagonals")
+        # the offset of the cross-sample diagonals grows from sample set to sample set (it is the summed width of the sets
+        # seen so far): a variable that a loop over the sample sets uses as diagonal offset is carried through the loop —
+        # re-assigned from the current set alone it is right for two sets of equal width and wrong from the third on
+        from ..inline import inlined as _inl
+
+        try:
+            cnode = _inl(prog, cv).node
+        except Exception:  # noqa: BLE001
+            cnode = cv.node
+        for lp in [x for x in ast.walk(cnode) if isinstance(x, ast.For)]:
+            offs = set()
+            for y in ast.walk(lp):
+                if isinstance(y, ast.Call) and (dotted(y.func) or "").split(".")[-1] == "diag":
+                    kk = kwarg(y, "k") or (y.args[1] if len(y.args) > 1 else None)
+                    if kk is not None:
+                        offs |= {z.id for z in ast.walk(kk) if isinstance(z, ast.Name)}
+            tnames = {z.id for z in ast.walk(lp.target) if isinstance(z, ast.Name)}
+            for v in sorted(offs - tnames):
+                defs_in = [y for y in ast.walk(lp) if (isinstance(y, ast.AugAssign) and isinstance(y.target, ast.Name) and y.target.id == v) or (isinstance(y, ast.Assign) and any(isinstance(t, ast.Name) and t.id == v for t in y.targets))]
+                if not defs_in:
+                    continue
+                carried = all((isinstance(y, ast.AugAssign) and isinstance(y.op, ast.Add)) or (isinstance(y, ast.Assign) and any(isinstance(z, ast.Name) and z.id == v for z in ast.walk(y.value))) for y in defs_in)
+                if carried:
+                    res.ok("C03.R4", res.site(cv, f"offset {v}"), "the offset of the cross-sample diagonals is accumulated over the sample sets")
+                else:
+                    res.violation("C03.R4", cv, defs_in[0], f"the diagonal offset `{v}` is re-assigned from the current sample set alone inside the loop over the sample sets (`{norm_stmt(defs_in[0])[:60]}`) instead of accumulated: from the third set on the diagonals taken are not the ones that pair the same observable — correlations dropped and unrelated ones kept, silently", key_extra="cov-diag-offset-not-accumulated")
         if "single" in bad:
             res.violation("C03.R4", cv, cv.node, "cov_from_samples no longer answers a single sample with NaN: (N-1)·cov = 0 is reported as a perfectly known result (zero errors)", key_extra="cov-single-sample")
     for orient in (False, True):
